@@ -33,6 +33,9 @@ def e(key: bytes, data: bytes) -> bytes:
     return encryptor.update(data[::-1])[::-1]
 
 
+_SECP256R1_P = 0xFFFFFFFF00000001000000000000000000000000FFFFFFFFFFFFFFFFFFFFFFFF
+
+
 class EccKey:
     def __init__(self, private_key: ec.EllipticCurvePrivateKey) -> None:
         self.private_key = private_key
@@ -65,6 +68,10 @@ class EccKey:
     def dh(self, public_key_x: bytes, public_key_y: bytes) -> bytes:
         x = int.from_bytes(public_key_x, byteorder='big', signed=False)
         y = int.from_bytes(public_key_y, byteorder='big', signed=False)
+        # The library reduces coordinates modulo the field prime silently: only
+        # field elements are valid coordinates.
+        if x >= _SECP256R1_P or y >= _SECP256R1_P:
+            raise ValueError("Public key coordinates out of range")
         return self.private_key.exchange(
             ec.ECDH(),
             ec.EllipticCurvePublicNumbers(x, y, ec.SECP256R1()).public_key(),
